@@ -14,7 +14,7 @@ func init() {
 
 func checkC09(c *Ctx) {
 	r, t := c.R, c.T
-	r.Explanation = "Decides the structural determinants of the use() linker in pkg/engine/callref.go on every path of the code: (1) PUSH-POP: in every function that calls (*searchPath).Push, each success return reached after a Push passes through Pop (typestate over the CFG, defer-aware, error returns excluded) — a leaked path entry makes a later visit of the same name look like a cycle; Push undoes its own append on its failure path and records the name only on success; Pop removes from nodeMap the very name it drops from path; (2) FRESH-PATH: the driver creates a new search path inside the per-root loop and passes that one to the DFS; (3) BIND: on the found-callee arm CallExpr.PrivateData is assigned the result of the allNg[name] lookup before the recursive call, and nothing else in the module writes PrivateData; (4) COPY-APPEND: every ChainAppend in pkg/engine has a receiver freshly produced by Copy()/NewErr (appending to a shared stored error would alter it); (5) CALLSITE-POS: the position appended for a use() call site is the NamePos of the CallExpr of the current loop iteration, not a field that the recursive call may have overwritten; (6) RESOLVED-ONLY: retMap is added to only after all callees resolved and in the driver only on the nil-error arm. Not decided: the iff-characterisation over all script sets as behaviour."
+	r.Explanation = "Decides the structural determinants of the use() linker in pkg/engine/callref.go on every path of the code: (1) PUSH-POP: in every function that calls (*searchPath).Push, each success return reached after a Push passes through Pop (typestate over the CFG, defer-aware, error returns excluded) — a leaked path entry makes a later visit of the same name look like a cycle; Push undoes its own append on its failure path and records the name only on success; Pop removes from nodeMap the very name it drops from path; (2) FRESH-PATH: the driver creates a new search path inside the per-root loop and passes that one to the DFS; (3) BIND: on the found-callee arm CallExpr.PrivateData is assigned the result of the allNg[name] lookup before the recursive call, and nothing else in the module writes PrivateData; (4) COPY-APPEND: every ChainAppend in pkg/engine has a receiver freshly produced by Copy()/NewErr (appending to a shared stored error would alter it); (5) CALLSITE-POS: the position appended for a use() call site is the NamePos of the CallExpr of the current loop iteration, not a field that the recursive call may have overwritten; (3b) BIND-ALL: every use() call site accepted by the checker is recorded (UseChecking → SetCallRef appends unconditionally → Check publishes Script.CallRef), so that the linker binds every call site, not one per callee name; (6) RESOLVED-ONLY: retMap is added to only after all callees resolved and in the driver only on the nil-error arm. Not decided: the iff-characterisation over all script sets as behaviour."
 	eng := t.SSA[pEngine]
 	sp := eng.Type("searchPath")
 	if sp == nil {
@@ -316,6 +316,7 @@ func checkC09(c *Ctx) {
 		})
 	}
 	copyFreshObligation(c, "COPY-APPEND")
+	callRefComplete(c, "BIND-ALL")
 	r.Floor("BIND", 1)
 	r.Floor("COPY-APPEND", 3)
 	r.Floor("CALLSITE-POS", 2)
@@ -410,4 +411,76 @@ func retOrdinalInstr(f *ssa.Function, x ssa.Instruction) int {
 		}
 	}
 	return n
+}
+
+// callRefComplete: every use() call site that passes the checker is recorded for the linker — UseChecking calls
+// SetCallRef(funcExpr) before accepting, SetCallRef appends its argument on every path, Script.Check publishes
+// the recorded list as Script.CallRef. A call site that is not recorded is never bound, and an unbound use()
+// silently does nothing at run time.
+func callRefComplete(c *Ctx, rule string) {
+	r, t := c.R, c.T
+	uc := t.Func(pFuncs, "UseChecking")
+	scr := t.Method(pRT, "Task", "SetCallRef")
+	chk := t.Method(pRT, "Script", "Check")
+	if uc == nil || scr == nil || chk == nil {
+		r.Undecided(rule, "UseChecking / Task.SetCallRef / Script.Check", "", "unresolved anchor")
+		return
+	}
+	r.Fn(relName(uc), relName(scr), relName(chk))
+	// (a) every accepting return of UseChecking is dominated by SetCallRef(funcExpr)
+	var reg []*ssa.Call
+	allInstrs(uc, func(in ssa.Instruction) {
+		if call, ok := in.(*ssa.Call); ok && call.Call.StaticCallee() == scr && call.Call.Args[1] == ssa.Value(uc.Params[1]) {
+			reg = append(reg, call)
+		}
+	})
+	okA := len(reg) > 0
+	allInstrs(uc, func(in ssa.Instruction) {
+		ret, ok := in.(*ssa.Return)
+		if !ok || retError(ret) == "nonnil" {
+			return
+		}
+		dom := false
+		for _, rc := range reg {
+			if precedes(rc, ret) {
+				dom = true
+			}
+		}
+		if !dom {
+			okA = false
+		}
+	})
+	r.Ob(rule, "UseChecking records every accepted use() call site", t.Pos(uc.Pos()), okA, "ctx.SetCallRef(funcExpr) must precede every accepting return")
+	// (b) SetCallRef appends its argument on every path
+	var app ssa.Instruction
+	allInstrs(scr, func(in ssa.Instruction) {
+		if s, ok := in.(*ssa.Store); ok && strings.HasSuffix(path(s.Addr), ".callRef") {
+			if call, ok := s.Val.(*ssa.Call); ok && builtinName(call) == "append" {
+				// the appended slice contains the parameter
+				if setStr(provOf(call.Call.Args[1])) == scr.Params[1].Name() {
+					app = in
+				}
+			}
+		}
+	})
+	okB := app != nil
+	if app != nil {
+		first := scr.Blocks[0].Instrs[0]
+		allInstrs(scr, func(in ssa.Instruction) {
+			if ret, ok := in.(*ssa.Return); ok {
+				if first == ssa.Instruction(ret) || reachAvoid(first, ret, func(x ssa.Instruction) bool { return x == app }) {
+					okB = false
+				}
+			}
+		})
+	}
+	r.Ob(rule, "Task.SetCallRef appends its argument on every path", t.Pos(scr.Pos()), okB, "a path that returns without appending (de-duplication, a size limit …) leaves that call site unbound: the linker binds exactly the recorded call expressions")
+	// (c) Check publishes the list
+	okC := false
+	allInstrs(chk, func(in ssa.Instruction) {
+		if s, ok := in.(*ssa.Store); ok && strings.HasSuffix(path(s.Addr), ".CallRef") && strings.HasSuffix(path(s.Val), ".callRef") {
+			okC = true
+		}
+	})
+	r.Ob(rule, "Script.Check publishes the recorded call sites as Script.CallRef", t.Pos(chk.Pos()), okC, "s.CallRef = ctx.callRef")
 }
